@@ -311,8 +311,61 @@ def gen_consts():
     return '\n'.join(out) + '\n'
 
 
+def default_entries():
+    """(class, field, default kind, converter kind) for every attrs field with a default."""
+    import attr
+    rows = []
+    seen = set()
+    for mod in MODS:
+        for _, cls in sorted(vars(mod).items()):
+            if not (inspect.isclass(cls) and cls.__module__.startswith('cryptoparser') and attr.has(cls)) or cls in seen:
+                continue
+            seen.add(cls)
+            for field in attr.fields(cls):
+                default = field.default
+                if default is attr.NOTHING:
+                    continue
+                if isinstance(default, attr.Factory):
+                    kind = 'factory'
+                else:
+                    mutable = (isinstance(default, (list, dict, set, bytearray, cpbase.ArrayBase)) or
+                               (attr.has(type(default)) and not isinstance(default, enum.Enum) and
+                                not type(default).__module__.startswith('attr')))
+                    kind = 'mutableShared' if mutable else 'immutable'
+                conv = 'none'
+                if field.converter is not None and kind == 'mutableShared':
+                    try:
+                        conv = 'identity' if field.converter(default) is default else 'copies'
+                    except Exception:  # pylint: disable=broad-except
+                        conv = 'identity'
+                elif field.converter is not None:
+                    conv = 'copies'
+                rows.append((cls.__name__, field.name, kind, conv))
+    return rows
+
+
+def gen_defaults():
+    out = ['/- GENERATED by tools/extract.py from the live cryptoparser code. Do not edit. -/',
+           'namespace Cp.Gen', '',
+           'inductive DefaultKind where', '  | immutable | mutableShared | factory', 'deriving DecidableEq, Repr', '',
+           'inductive ConvKind where', '  | none | copies | identity', 'deriving DecidableEq, Repr', '',
+           '/-- an attrs field with a default value: how the default is produced (a plain immutable value, a',
+           'plain MUTABLE object evaluated once at class creation and therefore shared, or an `attr.Factory`)',
+           'and what the field\'s converter does with it (probed on the live class). -/',
+           'structure FieldDefault where', '  cls : String', '  field : String', '  dflt : DefaultKind', '  conv : ConvKind',
+           'deriving DecidableEq, Repr', '']
+    rows = default_entries()
+    out.append('def fieldDefaults : List FieldDefault :=\n  {}'.format(lean_list(
+        ('⟨{}, {}, .{}, .{}⟩'.format(lean_str(c), lean_str(f), k, v) for c, f, k, v in rows), 2)))
+    out.append('')
+    out.append('end Cp.Gen')
+    return '\n'.join(out) + '\n'
+
+
 def main():
     changed = []
+    if write_if_changed(os.path.join(GEN, 'Defaults.lean'), gen_defaults()):
+        changed.append('Defaults.lean')
     vtext, vnames = gen_vectors()
     if write_if_changed(os.path.join(GEN, 'Vectors.lean'), vtext):
         changed.append('Vectors.lean')
